@@ -108,6 +108,8 @@ fn attr_text(f: &Field) -> String {
     } else {
         ("bits", range_text(f))
     };
+    // class G: the other keyword (`bit(a..=b)`, `bits(n)`), rejected by the pinned macro
+    let name = if f.syntax == 7 { if name == "bit" { "bits" } else { "bit" } } else { name };
     let access = f.access.text().to_string();
     // the parser takes the arguments in any order, with or without a trailing comma, and spread
     // over several bit/bits attributes as long as only one of them carries the range
